@@ -1124,6 +1124,8 @@ class Interp:
             return Opaque(nm)
         if nm in ('isnan', 'isinf', 'isfinite') and args and concrete(args[0]) is not None:
             return nm == 'isfinite'
+        if nm == 'copysign' and len(args) == 2 and is_num(args[0]) and is_num(args[1]):
+            return X.fn('abs', to_node(args[0])) * X.fn('sign', to_node(args[1]))      # for a non-zero second argument (signed zeros are the class domain's business)
         if nm in ('spherical_jn', 'spherical_yn') and args and isinstance(concrete(args[0]), int) and len(args) >= 2 and is_num(args[1]):
             dflag = kwargs.get('derivative', args[2] if len(args) > 2 else False)
             if dflag in (True, False, 0, 1):
